@@ -40,13 +40,13 @@ impl World for ListWorld {
         &["C20"]
     }
     fn configs(&self, _tier: Tier) -> Vec<Cfg> {
-        vec![Cfg { flavour: 0, mode: 0, x: 0, y: 0, k: 6 }, Cfg { flavour: 0, mode: 0, x: 0, y: 0, k: 3 }]
+        vec![Cfg { flavour: 0, mode: 0, x: 0, y: 0, k: 6, sw: 0 }, Cfg { flavour: 0, mode: 0, x: 0, y: 0, k: 3, sw: 0 }]
     }
     fn enum_configs(&self, tier: Tier) -> Vec<(Cfg, usize)> {
         if tier == Tier::Quick {
-            vec![(Cfg { flavour: 0, mode: 0, x: 0, y: 0, k: 4 }, 9)]
+            vec![(Cfg { flavour: 0, mode: 0, x: 0, y: 0, k: 4, sw: 0 }, 9)]
         } else {
-            vec![(Cfg { flavour: 0, mode: 0, x: 0, y: 0, k: 5 }, 40)]
+            vec![(Cfg { flavour: 0, mode: 0, x: 0, y: 0, k: 5, sw: 0 }, 40)]
         }
     }
     fn specs(&self, cfg: &Cfg) -> Vec<OpSpec> {
@@ -280,13 +280,13 @@ impl World for HeapWorld {
         &["C20"]
     }
     fn configs(&self, _tier: Tier) -> Vec<Cfg> {
-        vec![Cfg { flavour: 0, mode: 0, x: 3, y: 0, k: 6 }, Cfg { flavour: 0, mode: 0, x: 8, y: 0, k: 8 }]
+        vec![Cfg { flavour: 0, mode: 0, x: 3, y: 0, k: 6, sw: 0 }, Cfg { flavour: 0, mode: 0, x: 8, y: 0, k: 8, sw: 0 }]
     }
     fn enum_configs(&self, tier: Tier) -> Vec<(Cfg, usize)> {
         if tier == Tier::Quick {
-            vec![(Cfg { flavour: 0, mode: 0, x: 3, y: 0, k: 4 }, 8)]
+            vec![(Cfg { flavour: 0, mode: 0, x: 3, y: 0, k: 4, sw: 0 }, 8)]
         } else {
-            vec![(Cfg { flavour: 0, mode: 0, x: 3, y: 0, k: 6 }, 12), (Cfg { flavour: 0, mode: 0, x: 3, y: 0, k: 5 }, 40)]
+            vec![(Cfg { flavour: 0, mode: 0, x: 3, y: 0, k: 6, sw: 0 }, 12), (Cfg { flavour: 0, mode: 0, x: 3, y: 0, k: 5, sw: 0 }, 40)]
         }
     }
     fn specs(&self, cfg: &Cfg) -> Vec<OpSpec> {
